@@ -23,6 +23,14 @@ Panicked(e) == IF "panic" \in DOMAIN e THEN {Tag("C14", "store operation panicke
 StepReset == Ev.a = "reset" /\ st' = EmptyStore /\ kind' = Ev.kind /\ UNCHANGED viol
 StepMutate == /\ Ev.a = "mutate" /\ st' = ApplyBatch(st, Ev.batch) /\ UNCHANGED kind
               /\ viol' = viol \cup Panicked(Ev) \cup (IF Ev.err THEN {Tag("C14", "mutate failed")} ELSE {})
+(* what a concurrent reader saw, with one consistent range read over the keys of a large batch
+   while it was written: counts of keys carrying the new value, the previous value, anything else.
+   A batch becomes visible all at once: never a mixture. *)
+StepObserve == /\ Ev.a = "observe" /\ UNCHANGED <<st, kind>>
+               /\ viol' = viol \cup
+                    (IF \E i \in 1..Len(Ev.obs) : LET o == Ev.obs[i] IN
+                            o.other # 0 \/ (o.new # 0 /\ o.new # Ev.n) \/ (o.new # 0 /\ o.old # 0) \/ (o.old # 0 /\ o.old # Ev.n)
+                     THEN {Tag("C14", "a batch of mutations became visible in parts to a concurrent reader")} ELSE {})
 StepGet == /\ Ev.a = "get" /\ UNCHANGED <<st, kind>>
            /\ viol' = viol \cup Panicked(Ev) \cup
                 LET r == GetReply(st, Ev.t, Ev.k) IN
@@ -54,7 +62,7 @@ StepReopen == /\ Ev.a = "reopen" /\ UNCHANGED <<st, kind>>
               /\ viol' = viol \cup (IF Ev.err THEN {Tag("C14", "reopen failed")} ELSE {})
 
 Next == /\ l <= Len(Trace) /\ l' = l + 1
-        /\ (StepReset \/ StepMutate \/ StepGet \/ StepRange \/ StepScan \/ StepLast \/ StepReopen)
+        /\ (StepReset \/ StepMutate \/ StepObserve \/ StepGet \/ StepRange \/ StepScan \/ StepLast \/ StepReopen)
 Spec == Init /\ [][Next]_vars
 Report == (l = Len(Trace) + 1) => PrintT(<<"VIOL", viol>>)
 Accepted == TLCGet("stats").diameter = Len(Trace) + 1
